@@ -102,6 +102,11 @@ CHECKS = {
   "A scripted peer advertises each of the 128 subsets of seven extensions (a different one after Reset); MAIL/RCPT option subsets are issued and the keywords on the wire must belong to extensions in the most recent EHLO reply, REQUIRETLS/SMTPUTF8 not offered must be a local error with nothing written; all short strings over {CR, LF, NUL, SP, <, >, a} and a few long/smuggling values are passed in thirteen string-typed arguments and every transport write of the call and of the following call must be exactly one CRLF-terminated line.",
   "Relies on the client flushing once per command; the message body is exempt from the one-line rule.",
   "DESIGN.md section 5 C15"),
+ "C20": ("exploration",
+  "runtime monitoring: Go race detector over enumerated event orders and close/callback overlaps; porcupine linearizability check of concurrent Close/Shutdown histories; termination and goroutine-table checks; scripted Accept errors",
+  "Under the race-detector build (GOMAXPROCS default and 1; also 4 and a non-race pass in thorough): all orders of up to three (thorough: four) harness events from {delivery completes, RSET, next transaction, QUIT, disconnect, Server.Close, Server.Shutdown} against a parked BDAT delivery, a parked LMTP DATA delivery and a parked LMTP BDAT delivery; Server.Close overlapping each callback kind parked on a gate, and called directly from callbacks; groups of 2..8 barrier-released Close/Shutdown callers on one or two listeners (one of them failing to close) whose recorded call/return history is checked by porcupine against the sequential model 'first caller gets the listener result, later ones ErrServerClosed'; all sequences of up to five temporary/permanent Accept errors; replays of C03/C05/C13 cases for race coverage. Race reports are parsed, de-duplicated by racing statement pair and are violations; Serve/handlers/deliveries must terminate and no library goroutine may remain at the end.",
+  "The race detector sees only executed accesses; interleavings are diversified by enumerated orders, gates, yields and GOMAXPROCS, not exhausted.",
+  "DESIGN.md section 5 C20"),
 }
 
 NOT_APPLICABLE = {
